@@ -47,6 +47,10 @@ func (idx *Index) Execute(q *Query) (*Result, error) {
 		return nil, err
 	}
 
+	if err := checkColumns(q.Expr, idx.schema); err != nil {
+		return nil, err
+	}
+
 	result, err := q.Expr.eval(idx)
 	if err != nil {
 		return nil, err
@@ -123,6 +127,34 @@ func validateExpr(e Expression) error {
 
 		for _, ee := range v.Exprs {
 			if err := validateExpr(ee); err != nil {
+				return err
+			}
+		}
+	}
+
+	return nil
+}
+
+// checkColumns checks that every column tested by the expression exists in the schema.
+// Operators look up their cached result before they evaluate their operands, so without
+// this check a test of an unknown column below an operator is only reported on a cache miss.
+func checkColumns(e Expression, sch *schema) error {
+	switch v := e.(type) {
+	case *ExprEqual:
+		if _, ok := sch.Columns[v.Column]; !ok {
+			return fmt.Errorf("column %q not found in schema", v.Column)
+		}
+	case *ExprNot:
+		return checkColumns(v.Expr, sch)
+	case *ExprAnd:
+		for _, ee := range v.Exprs {
+			if err := checkColumns(ee, sch); err != nil {
+				return err
+			}
+		}
+	case *ExprOr:
+		for _, ee := range v.Exprs {
+			if err := checkColumns(ee, sch); err != nil {
 				return err
 			}
 		}
